@@ -35,7 +35,7 @@ def main():
     ck = Check("C02", "translation_validation")
     # C02Sched: the Dedicated-SRAM clause at the level of the scheduler's bookkeeping (design.d/SchedMem.md; the stage that ties the
     # model to the real scheduler runs in ./check C12)
-    ck.lean_stage(["VelaVerif.Props.C02", "VelaVerif.Props.C02Addr", "VelaVerif.Props.C02Sched"])
+    ck.lean_stage(["VelaVerif.Props.C02", "VelaVerif.Props.C02Addr", "VelaVerif.Props.C02Sched", "VelaVerif.Props.C02Src"])
     import pending
 
     pending.register(ck)          # repairs written but not yet in the tree under test (harness/pending.py)
